@@ -264,6 +264,16 @@ impl<'a> VisitMut for Rules<'a> {
 
     fn visit_path_mut(&mut self, p: &mut syn::Path) {
         syn::visit_mut::visit_path_mut(self, p);
+        // R33: a free function whose name clashes with a ghost name is renamed (opts.rename_fns = {old = "new"}), definition and calls
+        if p.segments.len() == 1 && p.leading_colon.is_none() {
+            if let Some(m) = self.ctx.opts["rename_fns"].as_object() {
+                let id = p.segments[0].ident.to_string();
+                if let Some(n) = m.get(&id).and_then(|v| v.as_str()) {
+                    p.segments[0].ident = syn::Ident::new(n, p.segments[0].ident.span());
+                    self.ctx.used("R33");
+                }
+            }
+        }
         // flat single-file output: module qualifiers `crate::a::b::T` / `super::T` are dropped
         if let Some(first) = p.segments.first() {
             let f = first.ident.to_string();
